@@ -50,6 +50,10 @@ var c17InFaults = []string{
 	// the sender gives up after two blocks, stays silent for longer than T4 and sends the SAME message again from
 	// block 1: the stale partial is discarded, the restarted message is complete and in order and is delivered
 	"t4-gap-restart",
+	// the sender stays silent for longer than T4 after block 1 and then RETRANSMITS block 1 (identical header) before
+	// going on with block 2..k: the stale partial is discarded, the retransmission is a duplicate of the last accepted
+	// block (that record outlives the partial), and the continuation blocks have no open message to join
+	"t4-gap-dup",
 }
 
 func c17InTotal(env *fw.Env) int64 { return int64(env.Pick(1024, 24000)) }
@@ -235,6 +239,8 @@ func c17InGen(r *rand.Rand, g int64, cfg c17Cfg) (c17InCase, []c17Step) {
 		k = 2 + r.IntN(3)
 	case "block0-mid", "t4-gap-restart":
 		k = 3 + r.IntN(2)
+	case "t4-gap-dup":
+		k = 2 + r.IntN(3)
 	case "lone-block0":
 		k = 1
 	case "paced":
@@ -293,6 +299,23 @@ func c17InGen(r *rand.Rand, g int64, cfg c17Cfg) (c17InCase, []c17Step) {
 			steps = append(steps, s)
 		}
 		m = nil // the generic per-block loop below has nothing left to do
+	}
+	if c.Fault == "t4-gap-dup" {
+		steps = append(steps, valid(m[0], "M1"))
+		x := newMsg(1, 3, 3)[0]
+		for x.Device == cfg.Dev {
+			x.Device = (cfg.Dev + 1) & 0x7FFF
+		}
+		steps = append(steps, valid(x, "X(other device, timing probe)"))
+		for n, b := range m {
+			s := valid(b, fmt.Sprintf("M%d", n+1))
+			if n == 0 {
+				s.PreGap = 3 * c17T4
+				s.Tag = fmt.Sprintf("M1(retransmitted after %s)", s.PreGap)
+			}
+			steps = append(steps, s)
+		}
+		m = nil
 	}
 	for n, b := range m {
 		n1 := n + 1
